@@ -15,6 +15,7 @@ from typing import Any
 from kv import vloop
 
 MS = 1000
+ALL_STEPS = 10 ** 9
 
 
 def ms(x: float) -> int:
@@ -105,6 +106,9 @@ def drive(case: dict, float_mode: bool = False) -> dict:
             raise execution.PermanentError('scripted')
         if oc == 'arb':
             raise ValueError('scripted')
+        if isinstance(oc, (list, tuple)) and oc[0] == 'child':
+            # what kopf.execute() raises while sub-handlers are unfinished (subhandling.py)
+            raise execution.HandlerChildrenRetry('scripted', delay=unit(oc[1]) if oc[1] is not None else None)
         if isinstance(oc, (list, tuple)) and oc[0] == 'temp':
             raise execution.TemporaryError('scripted', delay=unit(oc[1]) if oc[1] is not None else None)
         raise RuntimeError(f'bad outcome in script: {oc!r}')
@@ -172,7 +176,16 @@ def drive(case: dict, float_mode: bool = False) -> dict:
         ([(unit(case['stop']), 1, 'stop')] if case.get('stop') is not None else []))
     horizon = unit(case['horizon'])
     # race stream (monitor only): an essential change injected `k` loop iterations INTO instant t
-    late: list[tuple[float, int]] = sorted((unit(t), int(k)) for t, k in case.get('late_resets', []))
+    late: list[tuple[float, int]] = [(unit(t), int(k)) for t, k in case.get('late_resets', [])]
+    # LATE essential changes of the model (D-tie): applied after ALL loop callbacks of their instant have run,
+    # i.e. after the timer's task step of that instant; before the spawn instant early/late is the same thing
+    for t in case.get('late', []):
+        if unit(t) < unit(case.get('spawn', 0)):
+            ext.append((unit(t), 0, 'reset'))
+        else:
+            late.append((unit(t), ALL_STEPS))
+    ext.sort()
+    late.sort()
     saved = (application.patch_and_check, aiotime.sleep)
     application.patch_and_check = fake_patch_and_check   # looked up as module attribute by _timer
     aiotime.sleep = spy_sleep
@@ -228,7 +241,9 @@ def drive(case: dict, float_mode: bool = False) -> dict:
                     steps = 0
                     while late and late[0][0] <= t:
                         _, k = late.pop(0)
-                        while steps < k and (loop.has_ready() or loop.due()):
+                        if k >= ALL_STEPS:
+                            steps += loop.settle()
+                        while steps < k < ALL_STEPS and (loop.has_ready() or loop.due()):
                             loop.step()
                             steps += 1
                         memory.idle_reset_time = asyncio.get_running_loop().time()
